@@ -212,15 +212,15 @@ theorem c14_diff (tables : List Table) (running : List Nat) (i : Nat) :
 
 /-- non-vacuity: two managers race to create table "a" (both pass the existence check, both get an
 id), the second record write is refused; delete and re-create yields a larger id; the history is
-10001, 10002, 10003 -/
+the first three ids beyond the reserved range -/
 example :
     let s := System.run {} [.start 1 (.createStart "a"), .start 2 (.createStart "a"), .sched 1, .sched 2,
       .sched 1, .sched 1, .sched 2, .sched 2, .sched 1, .sched 2,
       .start 3 (.deleteStart "a"), .sched 3, .sched 3, .start 4 (.createStart "a"), .sched 4, .sched 4, .sched 4, .sched 4]
-    s.w.issued = [10001, 10002, 10003] ∧
+    s.w.issued = [tableIDsRangeStart + 1, tableIDsRangeStart + 2, tableIDsRangeStart + 3] ∧
     (s.calls.map (fun c => (c.1, match c.2 with
       | .doneTable t => t.clusterID | .doneErr .tableExists => 1 | .doneOk => 2 | _ => 0)))
-      = [(4, 10003), (3, 2), (2, 1), (1, 10001)] := by decide
+      = [(4, tableIDsRangeStart + 3), (3, 2), (2, 1), (1, tableIDsRangeStart + 1)] := by decide +kernel
 
 end Regatta.Props.C14
 
